@@ -492,6 +492,7 @@ func staleTail(snap string, nChunks int) bool {
 // occurrence 0..5, with per-file hint files on disk when the pass starts (clean restart first)
 // or only those the pass itself dumps; after restart every key reads its pre-GC value.
 func VH_C07_X2_kill_dst_switch() {
+	scenSplitCap = 2 // hint splits of the destination fill up and rotate during the pass
 	s := newScen(768, false, "ka", "kb", "kc", "kd", "ke", "kf", "kg")
 	s.setS("ka") // file0, left short (1 or 2 records) by the restart below
 	if vrt.Bool("two-in-file0") {
